@@ -29,7 +29,7 @@ from ..kernel import RunResult, Trace
 from ..world.policy import SimPolicyState
 
 NAME = "ring"
-PROPS = {"C06", "C09"}
+PROPS = {"C06", "C09", "C12"}
 BIG = 4096.0
 NODE = 1000  # tag = node * NODE + n, n >= 1
 
@@ -332,11 +332,13 @@ class Runner:
             if kind == "flatten":
                 flat = self._flatten[ax](buf)
                 tags = self._rollout_tags(flat)
+                self._no_env_mixing(res, props, tags, "flatten")
                 self._aligned(res, tags, "flatten_bijection", expect_set=set(range(1, N + 1)), expect_len=N)
                 tr.ev("flatten", tags=np.asarray(tags[0]).astype(int).tolist())
             elif kind == "batches":
                 out = self._batches[ax](buf, key)
                 tags = self._rollout_tags(out)
+                self._no_env_mixing(res, props, tags, "batches")
                 tr.ev("batches", tags=np.asarray(tags[0]).astype(int).tolist())
                 self._partition(res, tags, N, B)
             elif kind == "indices_gather":
@@ -400,6 +402,7 @@ class Runner:
                 b = max(1, B)
                 out = self._rsample[ax](buf, jr.key(op["key"]))
                 tags = self._rollout_tags(out)
+                self._no_env_mixing(res, props, tags, "sample")
                 tr.ev("sample", tags=np.asarray(tags[0]).astype(int).tolist())
                 if self._aligned(res, tags, "row_intact", expect_len=b):
                     ids = np.asarray(tags[0]).round().astype(int).tolist()
@@ -407,6 +410,27 @@ class Runner:
                         res.fail("C09", "at_most_once_per_epoch", "sample_with_duplicates_or_foreign_rows", got=ids)
             res.steps += 1
         return res
+
+    def _no_env_mixing(self, res, props, tags, where: str) -> None:
+        """C12: every row of a view of an N-environment rollout takes all of its fields from ONE environment."""
+        n, T = self.cls["n"], self.cls["T"]
+        if "C12" not in props or n <= 1:
+            return
+        envs = []
+        for t in tags:
+            t = np.asarray(t, dtype=np.float64).reshape(-1)
+            if not np.all(np.isfinite(t)):
+                return  # garbage rows are C09's business
+            envs.append((np.round(t).astype(int) - 1) // T)
+        if len({e.shape for e in envs}) != 1:
+            return
+        E = np.stack(envs)
+        mixed = np.nonzero(np.any(E != E[0], axis=0))[0]
+        if mixed.size:
+            res.fail("C12", "rows_do_not_mix_environments", "fields_of_one_row_come_from_different_environments", where=where,
+                     row=int(mixed[0]), envs_of_fields=E[:, mixed[0]].tolist())
+        else:
+            res.ok("C12", "rows_do_not_mix_environments", int(E.shape[1]))
 
     def _aligned(self, res, tags, check, expect_set=None, expect_len=None) -> bool:
         base = np.asarray(tags[0], dtype=np.float64).reshape(-1)
